@@ -219,6 +219,10 @@ def rule_fr(ctx):
     ok = any(A.is_self_attr(n.targets[0], 'slice') and (A.dotted(n.value.value.func) or '').endswith('arange')
              for n in A.walk_local(sl) if isinstance(n, ast.Assign)
              and isinstance(n.value, ast.Subscript) and isinstance(n.value.value, ast.Call))
+    aliasing = [n for n in A.walk_local(sl) if isinstance(n, ast.Assign) and any(A.is_self_attr(t, 'slice') for t in n.targets)
+                and (isinstance(n.value, (ast.Name, ast.Attribute)) or (
+                    isinstance(n.value, ast.Call) and (A.dotted(n.value.func) or '').endswith('asarray')))]
+    ok = ok and not aliasing
     rep.ob('FR', 'core.SliceDataset.__init__::reindexes-into-a-new-array', ok, sl,
            '' if ok else 'the slice must be re-derived through np.arange(len)[selection] so that it does not alias the '
            'caller\'s (later reshuffled) permutation array')
@@ -312,6 +316,19 @@ def rule_ls(ctx):
     ok = ln is not None and any(isinstance(r.value, ast.Call) and A.dotted(r.value.func) == 'len'
                                 and A.is_self_attr(r.value.args[0], INPUT_ATTR) for r in flow.returns_of(ln.node))
     rep.ob('LS', K.key(ls, '__len__', 'forwards-len(input)'), ok, ln.node if ln else ls.node, '')
+    base = ctx.repo.dataset_base()
+    for c in [n for n in A.walk_local(base.own('shuffle').node) if isinstance(n, ast.Call) and A.dotted(n.func) == 'LocalShuffleDataset']:
+        b = flow.bind(c, ls.own('__init__').node)
+        e = b.args.get('buffer_size')
+        ok = A.is_name(e, 'buffer_size')
+        rep.ob('LS', K.key(base, 'shuffle', 'passes(buffer_size)->LocalShuffleDataset'), ok, c,
+               '' if ok else 'the requested buffer_size does not reach the stage (%s): elements can leave far earlier than '
+               'buffer_size - 1 positions before their source position' % ('default %s' % A.short(b.sig['defaults'].get('buffer_size'))
+                                                                              if e is None else A.short(e)))
+    init = ls.own('__init__').node
+    ok = any(isinstance(n, ast.Assign) and A.is_self_attr(n.targets[0], 'buffer_size') and A.is_name(n.value, 'buffer_size')
+             for n in A.walk_local(init))
+    rep.ob('LS', K.key(ls, '__init__', 'stores(buffer_size)-unchanged'), ok, init, '')
 
 
 def rule_tl(ctx):
